@@ -94,6 +94,7 @@ type catalogue struct {
 	loc      string // locale the catalogue is loaded for
 	rule     string // whose plural rule the Plural-Forms header carries (SoyPO rule id)
 	alias    bool   // loc != rule: only plural messages are rendered, in Go only
+	resolved bool   // selected through Provider.Bundle(locale name) from catalogues on one fallback chain
 	tools    bool   // rewritten the way translators' tools leave a catalogue (decoratePO); Go only
 	strategy string // none | idt | rev | partial
 	text     string // PO text
@@ -626,6 +627,9 @@ func runGroup(ctx0 *core.Ctx, ctx *reporter, cases []*POCase, locales []string, 
 	wg.Wait()
 	ctx.AddEvals(int64(renders))
 	ctx0.Extra[tag+"_go_renders"] = renders
+	if tag == "main" {
+		checkLocaleResolution(ctx, cats, occs, entries, tofu, files)
+	}
 
 	// ---- render in node ---------------------------------------------------------------
 	jsRenders, err := renderJS(ctx, work, reg, cats, occs, entries, files)
@@ -673,6 +677,7 @@ func trunc(s string, n int) string {
 // checkInvalid: messages PO cannot carry must be refused by pomsg.Validate
 // and make the extractor fail.
 func checkInvalid(ctx *reporter, xg, work string, invalid []*POCase) {
+	refused, roundTripped := 0, 0
 	for i, c := range invalid {
 		dir := filepath.Join(work, fmt.Sprintf("inv%d", i))
 		os.MkdirAll(dir, 0o755)
@@ -686,24 +691,69 @@ func checkInvalid(ctx *reporter, xg, work string, invalid []*POCase) {
 		}
 		ctx.AddEvals(2)
 		ctx.Distinct("invalid-" + c.ID)
-		for _, m := range c10.MsgNodes(reg) {
-			if pomsg.Validate(m) == nil {
-				ctx.Violation(core.Sig{Family: "M2-validate", Feature: "validate-accepts-unrepresentable-plural"},
-					"pomsg.Validate accepts "+c10.UnparseBody(c.Parts), rp)
-			}
-		}
-		_, stderr, exit, err := runExtractor(xg, dir)
+		stdout, stderr, exit, err := runExtractor(xg, dir)
 		if err != nil {
 			ctx.ToolError("cannot run xgettext-soy: %v", err)
 			return
 		}
-		if exit == 0 {
-			rp["stderr"] = stderr
-			ctx.Violation(core.Sig{Family: "M2-validate", Feature: "extractor-accepts-unrepresentable-plural"},
-				"xgettext-soy exits 0 on "+c10.UnparseBody(c.Parts), rp)
+		if exit != 0 {
+			refused++ // the message cannot be carried and the extraction says so
+			continue
+		}
+		// it was extracted: then the identity translation must render what the
+		// source renders, for every count
+		rp["stderr"], rp["po"] = stderr, stdout
+		pof, err := po.Parse(strings.NewReader(stdout))
+		if err != nil {
+			ctx.Violation(core.Sig{Family: "M2-validate", Feature: "po-output-unparseable"}, "PO output does not parse: "+err.Error(), rp)
+			continue
+		}
+		pf := po.File{Header: textproto.MIMEHeader{}}
+		pf.Header.Set("Plural-Forms", "nplurals=2; plural=(n != 1);")
+		if len(pof.Messages) == 0 {
+			continue
+		}
+		for _, m := range pof.Messages {
+			m.Str = translate("idt", m.Id, m.IdPlural, "en", 2)
+			pf.Messages = append(pf.Messages, m)
+		}
+		var buf bytes.Buffer
+		pf.WriteTo(&buf)
+		prov, err := pomsg.Load(memOpener{"en": buf.String()}, []string{"en"})
+		if err != nil || prov.Bundle("en") == nil {
+			ctx.Violation(core.Sig{Family: "M2-validate", Feature: "extracted-unrepresentable-plural,catalogue-rejected"},
+				fmt.Sprintf("%s is extracted, but its identity catalogue does not load: %v", c10.UnparseBody(c.Parts), err), rp)
+			continue
+		}
+		cat := &catalogue{name: "en-idt", loc: "en", rule: "en", strategy: "idt", bundle: prov.Bundle("en"), np: 2, text: buf.String()}
+		tofu := soyhtml.NewTofu(reg)
+		same := true
+		for _, ex := range c.Exp {
+			out, err := renderGo(tofu, "c11.inv.m", cat, ex.N, 0)
+			ctx.AddEvals(1)
+			if ex.Src.T != "out" {
+				continue
+			}
+			if err != nil || out != ex.Src.S {
+				same = false
+				errS := ""
+				if err != nil {
+					errS = err.Error()
+				}
+				rp["n"], rp["observed"], rp["expected"], rp["catalogue"] = ex.N, out, ex.Src.S, buf.String()
+				ctx.Violation(core.Sig{Family: "M2-validate", Feature: "unrepresentable-plural-extracted-and-rendered-differently"},
+					fmt.Sprintf("%s is accepted by the extraction (msgid %q / %q), and with the identity translation n=%d renders %q err=%q where the source renders %q",
+						c10.UnparseBody(c.Parts), pof.Messages[0].Id, pof.Messages[0].IdPlural, ex.N, out, errS, ex.Src.S), rp)
+				break
+			}
+		}
+		if same {
+			roundTripped++
 		}
 	}
 	ctx.ctx.Extra["unrepresentable_cases"] = len(invalid)
+	ctx.ctx.Extra["unrepresentable_refused"] = refused
+	ctx.ctx.Extra["unrepresentable_extracted_and_round_tripped"] = roundTripped
 }
 
 // checkEntry compares one extracted PO entry with the spec.
@@ -921,6 +971,9 @@ func judgeRender(ctx *reporter, backend string, o *occ, cat *catalogue, n int, e
 		if cat.tools {
 			feat = fmt.Sprintf("%s,%s,catalogue-as-tools-write-it", tr, kind)
 		}
+		if cat.resolved {
+			feat = fmt.Sprintf("%s,%s,locale-selects-another-catalogue", tr, kind)
+		}
 		if o.c.isPlural() && cat.np > 0 && translated {
 			feat += fmt.Sprintf(",plural-forms=%d", cat.np)
 			if cat.alias {
@@ -1113,4 +1166,130 @@ func renderJS(ctx *reporter, work string, reg *template.Registry, cats []*catalo
 		}
 	}
 	return total, nil
+}
+
+// ---- which catalogue a locale name selects -------------------------------------
+
+// locParts splits a locale name (- or _ separated, any letter case) into
+// language, script, region as SoyPO.POLoc has them.
+func locParts(name string) (lang, script, region string) {
+	for i, p := range strings.FieldsFunc(name, func(r rune) bool { return r == '-' || r == '_' }) {
+		switch {
+		case i == 0:
+			lang = strings.ToLower(p)
+		case len(p) == 4:
+			script = strings.ToUpper(p[:1]) + strings.ToLower(p[1:])
+		default:
+			region = strings.ToUpper(p)
+		}
+	}
+	return
+}
+
+func locName(lang, script, region string) string {
+	n := lang
+	if script != "" {
+		n += "-" + script
+	}
+	if region != "" {
+		n += "-" + region
+	}
+	return n
+}
+
+// resolveLocale mirrors SoyPO.POResolve: the catalogue named exactly as
+// requested, else the first existing one of lang-script-region, lang-script,
+// lang ("" = none).
+func resolveLocale(avail map[string]bool, request string) string {
+	if avail[request] {
+		return request
+	}
+	l, sc, r := locParts(request)
+	var chain []string
+	if r != "" {
+		chain = append(chain, locName(l, sc, r))
+	}
+	if sc != "" {
+		chain = append(chain, locName(l, sc, ""))
+	}
+	chain = append(chain, l)
+	for _, c := range chain {
+		if avail[c] {
+			return c
+		}
+	}
+	return ""
+}
+
+// checkLocaleResolution loads several catalogues that lie on one fallback
+// chain (they differ in their translation strategy, so the rendering tells
+// which one was used) and renders with the bundle each locale name selects.
+// The chains are those the repository's fallback tests pin (lang-Script-Region,
+// lang-Script, lang; lang-Region, lang).
+func checkLocaleResolution(ctx *reporter, cats []*catalogue, occs []*occ, entries map[string]*poEntry, tofu *soyhtml.Tofu, files []core.File) {
+	text := map[string]string{}
+	for _, c := range cats {
+		if c.loc == "en" && !c.alias && !c.tools && (c.strategy == "idt" || c.strategy == "rev") {
+			text[c.strategy] = c.text
+		}
+	}
+	if text["idt"] == "" || text["rev"] == "" {
+		return
+	}
+	// catalogue name -> strategy of its content
+	content := map[string]string{
+		"zh": "rev", "zh-Hant": "idt",
+		"pt": "rev", "pt-BR": "idt",
+		"ar": "idt", "ar-Arab-EG": "rev",
+		"sr": "idt", "sr-Latn": "rev", "sr-Latn-RS": "idt",
+	}
+	opener := memOpener{}
+	avail := map[string]bool{}
+	var names []string
+	for n, st := range content {
+		opener[n] = text[st]
+		avail[n] = true
+		names = append(names, n)
+	}
+	sort.Strings(names)
+	prov, err := pomsg.Load(opener, names)
+	if err != nil {
+		ctx.Violation(core.Sig{Family: "M2-load", Feature: "catalogue-rejected,locale-chain"}, "pomsg.Load rejects the catalogues: "+err.Error(), nil)
+		return
+	}
+	requests := []string{"zh", "zh-Hant", "zh-Hant-TW", "zh_Hant_TW", "ZH-hant-tw", "zh-TW", "zh-Hans-CN", "zh-Hant-HK",
+		"pt", "pt-BR", "pt_BR", "pt-PT", "pt-Latn-BR",
+		"ar", "ar-Arab-EG", "ar_Arab_EG", "ar-Arab", "ar-EG", "ar-Arab-SA",
+		"sr", "sr-Latn", "sr-Latn-RS", "sr_Latn_RS", "sr-Latn-ME", "sr-Cyrl-RS", "sr-RS"}
+	// some plural-free occurrences whose identity and reversed renderings differ
+	var sample []*occ
+	for i, o := range occs {
+		if !o.c.isPlural() && len(o.more) == 0 && len(o.c.Parts) >= 2 && i%17 == 0 && len(sample) < 40 {
+			sample = append(sample, o)
+		}
+	}
+	n := 0
+	for _, req := range requests {
+		want := resolveLocale(avail, req)
+		b := prov.Bundle(req)
+		if want == "" {
+			continue // no catalogue on the chain: nothing to render with
+		}
+		if b == nil {
+			ctx.Violation(core.Sig{Family: "M2-locale", Feature: "no-bundle-although-a-catalogue-is-on-the-chain"},
+				fmt.Sprintf("Bundle(%q) is nil although %s exists", req, want), map[string]interface{}{"request": req, "catalogues": names})
+			continue
+		}
+		cat := &catalogue{name: "locale " + req + " -> " + want, loc: "en", rule: "en", strategy: content[want], bundle: b, np: 2, text: text[content[want]], resolved: true}
+		for _, o := range sample {
+			for _, ex := range o.c.Exp {
+				out, err := renderGo(tofu, o.tmpl, cat, ex.N, 0)
+				n++
+				judgeRender(ctx, "go", o, cat, ex.N, entries, out, err, files[o.file])
+			}
+		}
+	}
+	ctx.AddEvals(int64(n))
+	ctx.ctx.Extra["locale_resolution_requests"] = len(requests)
+	ctx.ctx.Extra["locale_resolution_renders"] = n
 }
